@@ -29,6 +29,8 @@ def dispatch (line : String) : String :=
   | "blk" :: rest => Blk.handle rest
   | "blkc" :: rest => Blk.handleCuts rest
   | "bld" :: rest => Bld.handle rest
+  | "prj" :: rest => Bld.handlePrj rest
+  | "prjd" :: rest => Bld.handlePrjd rest
   | _ => "bad-request"
 
 partial def loop (h : IO.FS.Stream) (out : IO.FS.Stream) : IO Unit := do
